@@ -10,9 +10,9 @@ From QSX Require Import Store.Spec Store.Api.
 From QSX Require Import Fac.FTUpdate.
 From QSX Require Import Store.Matrix Store.L2.
 From QSX Require Import IO.LpWrite IO.LpRead IO.MpsWrite IO.LpRoundtrip IO.LpNames.
-(* one Require line per area may be added below *)
 From QSX Require Import Store.RawLoad.
 From QSX Require Import Store.GuardDefs Gen.Guards.
+(* one Require line per area may be added below *)
 
 Extraction Language OCaml.
 Extraction "model.ml"
@@ -34,7 +34,7 @@ Extraction "model.ml"
   lib_optimalstatus lib_dualstatus loaded_basis lp_bounds_ok norm_stat spike usolve usolve_t bpost update update_spike struct_ok repr_same_u sparsify norm_line sort_sparse
   l2_step_c l2_load_c l2_copy_c empty_lstore lwf_check wf_check abs col_ents
   write_lp file_bytes read_lp_res split_lines to_nlp write_mps wf_lpb fix_names default_objname
-  (* add names below, one line per area *)
   lib_load_raw_c merge_col_c
   guards guard_accepts role_accepts
+  (* add names below, one line per area *)
   .
